@@ -12,7 +12,7 @@ from jedi.parser_utils import function_is_classmethod, function_is_staticmethod
 _DEFINITION_SCOPES = ('suite', 'file_input')
 _VARIABLE_EXCTRACTABLE = EXPRESSION_PARTS + \
     ('atom testlist_star_expr testlist test lambdef lambdef_nocond '
-     'keyword name number string fstring').split()
+     'keyword operator name number string fstring').split()
 
 
 def extract_variable(inference_state, path, module_node, name, pos, until_pos):
@@ -174,18 +174,19 @@ def _remove_unwanted_expression_nodes(parent_node, pos, until_pos):
     is_suite_part = typ in ('suite', 'file_input')
     if typ in EXPRESSION_PARTS or is_suite_part:
         nodes = parent_node.children
+        # An operand that is only here because of its operator is not in the
+        # range at all and is used as a whole.
+        start_index = 0
+        end_index = len(nodes) - 1
         for i, n in enumerate(nodes):
             if n.end_pos > pos:
                 start_index = i
-                if n.type == 'operator':
+                if i > 0 and _is_not_extractable_syntax(n):
                     start_index -= 1
                 break
         for i, n in reversed(list(enumerate(nodes))):
             if n.start_pos < until_pos:
                 end_index = i
-                if n.type == 'operator':
-                    end_index += 1
-
                 # Something like `not foo or bar` should not be cut after not
                 for n2 in nodes[i:]:
                     if _is_not_extractable_syntax(n2):
@@ -202,7 +203,7 @@ def _remove_unwanted_expression_nodes(parent_node, pos, until_pos):
 
 
 def _is_not_extractable_syntax(node):
-    return node.type == 'operator' \
+    return node.type in ('operator', 'comp_op') \
         or node.type == 'keyword' and node.value not in ('None', 'True', 'False')
 
 
